@@ -307,8 +307,13 @@ NC_new_cdf(const char *name, int mode)
                 HGOTO_FAIL(NULL);
 
             /* start Vxx access */
-            if (Vstart(cdf->hdf_file) == FAIL)
+            if (Vstart(cdf->hdf_file) == FAIL) {
+                /* the cleanup below only frees memory: do not leave the file open
+                   under an id nobody has */
+                Hclose(cdf->hdf_file);
+                cdf->hdf_file = FAIL;
                 HGOTO_FAIL(NULL);
+            }
 
             cdf->hdf_mode = hdf_mode;
             cdf->vgid     = 0; /* invalid ref */
